@@ -6,8 +6,10 @@ IDS=${@:-C12 C19 C09 C13 C16 C04 C06 C02 C14 C18 C03 C07 C11 C17 C10 C15 C20 C05
 mkdir -p evidence/thorough
 for id in $IDS; do
   t0=$(date +%s)
+  [ -n "$KEEP_QUICK_EVIDENCE" ] && cp evidence/$id.json /tmp/ev_keep_$id.json 2>/dev/null
   timeout ${THOROUGH_TIMEOUT:-14400} ./check $id --tier thorough > /tmp/thorough_$id.log 2>&1; rc=$?
   t1=$(date +%s)
   [ -f evidence/$id.json ] && grep -q '"tier": *"thorough"' evidence/$id.json && cp evidence/$id.json evidence/thorough/$id.json
+  [ -n "$KEEP_QUICK_EVIDENCE" ] && [ -f /tmp/ev_keep_$id.json ] && mv /tmp/ev_keep_$id.json evidence/$id.json  # the quick tier's own evidence file comes back
   echo "$id rc=$rc wall=$((t1-t0))s $(grep -c '^VIOLATION' /tmp/thorough_$id.log) violations; $(tail -1 /tmp/thorough_$id.log | cut -c1-260)"
 done
